@@ -531,6 +531,14 @@ func checkMergeDirection(r *Run, p *Prog) {
 		}) {
 			gate[e] = true
 		}
+		// false edge of a conjunction each conjunct of which is the negation of a licensing
+		// atom (the De Morgan form: "if known && !newer { continue }")
+		for e := range c.FalseEdgesOfConjunctionOf(func(a ast.Expr) bool {
+			core, neg := BoolTest(a)
+			return atomOK(core, neg == 1)
+		}, func(ast.Expr) bool { return true }) {
+			gate[e] = true
+		}
 		q, vis := c.ReachAvoiding([]Point{c.Entry()}, gate, nil)
 		ok := len(gate) > 0
 		var path []string
